@@ -50,10 +50,9 @@ Proof. exact asty_sites_checked. Qed.
 Print Assumptions C17_position_sources.
 
 (* models the handlers build themselves: all positioned (or never compiled), or else one is compiled
-   unpositioned and reports line 1.  On the unchanged tree the second alternative computes:
-   compile_pattern compiles dotted("hy.models.Keyword") for a keyword pattern without .replace
-   (finding C17-match-keyword-pattern-line-1), and compile_cut_expression builds Symbol("None")
-   (only a Constant, which cannot raise). *)
+   unpositioned and reports line 1.  On the current tree the second alternative still computes, but only
+   for compile_cut_expression's Symbol("None") (a Constant, which cannot raise); the keyword-pattern lookup
+   dotted("hy.models.Keyword") is .replace()d since 9623a4f (former finding C17-match-keyword-pattern-line-1). *)
 Theorem C17_synthesized_forms_status :
   forallb (fun s => negb (is_unreplaced (snd s))) synthesized = true
   \/ (exists s, In s synthesized /\ snd s = Unreplaced /\ emits pos_attrs (Form None []) 1).
